@@ -111,6 +111,12 @@ def run_case(ctx, rep, spec, cn, posname, pos, fields, limit, model, path=None, 
                 break
     for x in bad[:3]:
         rep.fail(x, case)
+    if model:
+        diff = writers.level_header_matches_model(out, Q, leanio)
+        if diff:
+            rep.tie(f"level header text of levels {diff} differs from the Lean renderer (whose parse-after-render law is proved)", case)
+        else:
+            rep.agree()
     if model and not bad:
         # distribution of the boxes over binary files against the Lean chunking model
         reqs = []
